@@ -1,8 +1,9 @@
 ---------------------------- MODULE Trace_TmplSem ----------------------------
 (* X01 judge.  One record per line of obs.ndjson (harness/cmd/x01):
-     {id, fam, fmt, pre, glob, tree, src, outcome, out, msg}
-   tree / pre / glob are the case as exported by MC_TmplSem (echoed by the driver), src the source text of the tree (the
-   driver builds  head(pre) src tail(pre)  with the texts of the prelude and epilogue that TLC exported in frame.ndjson), outcome = "ok" (out = the bytes that Run wrote) | "builderror" | "runerror" | "hostpanic" | "timeout",
+     {id, fam, fmt, lay, pre, glob, tree, src, outcome, out, msg}
+   tree / lay / pre / glob are the case as exported by MC_TmplSem (echoed by the driver), src the source text of the tree (the
+   driver builds the files of the layout lay from the texts that TLC exported in frame.ndjson: TmplSem!TmFrame; the reference
+   interprets the one-file tree that the layout is equivalent to: TmplSem!TmEquiv), outcome = "ok" (out = the bytes that Run wrote) | "builderror" | "runerror" | "hostpanic" | "timeout",
    msg the error text (never judged: it only goes into the diagnostics).
 
    The judge has an opinion when the printer, applied again to the echoed tree, gives exactly the source that ran
@@ -15,7 +16,7 @@
    wrong" or "Scriggo departs from its documentation / from Go". *)
 EXTENDS TmplSem, TLC, Json, SequencesExt
 
-Full(r) == TmWhole(r.pre, r.tree)
+Full(r) == TmEquiv(r.lay, r.pre, r.tree)
 \* <<has opinion, ok, reference outcome, reference output>>
 Verdict(r) ==
   LET full == Full(r)
@@ -28,15 +29,20 @@ Verdict(r) ==
 Cause(r, v) ==
   LET pats == TmNestedLoopPatterns(r.tree) IN
   IF r.outcome = "builderror" /\ r.fmt = "html" /\ "end-using-in-typed-body" \in pats THEN "context-not-restored-after-end-using"
+  ELSE IF r.outcome = "builderror" /\ "fallthrough-after-macro-or-using" \in pats THEN "fallthrough-after-macro-or-using-refused"
+  ELSE IF r.outcome = "hostpanic" /\ v[3] = "runerror" THEN "run-error-in-nested-macro-call-panics-into-host"
   ELSE IF r.outcome \in {"builderror", "hostpanic"} THEN r.outcome
   ELSE IF v[3] = "ok" /\ r.outcome = "runerror" THEN "unexpected-run-error"
   ELSE IF v[3] = "runerror" /\ r.outcome = "ok" THEN "missing-run-error"
   ELSE IF r.outcome = "ok" /\ r.out = TmRun(Full(r), r.glob, "shared").out THEN "one-loop-variable-for-all-iterations"
   ELSE IF "break-in-range" \in pats THEN "break-in-range-nested-in-for-or-switch"
   ELSE IF "continue-in-for" \in pats THEN "continue-in-for-nested-in-range"
+  ELSE IF "for-without-condition" \in pats THEN "continue-after-or-in-for-without-condition"
+  ELSE IF "map-range-key" \in pats THEN "map-range-key-in-wrong-register"
   ELSE IF r.outcome = "ok" THEN "output-differs" ELSE r.outcome
 \* a named root cause is the signature; an unnamed one is told apart by the construct kinds of the tree
-Named == {"context-not-restored-after-end-using", "one-loop-variable-for-all-iterations", "break-in-range-nested-in-for-or-switch", "continue-in-for-nested-in-range"}
+Named == {"fallthrough-after-macro-or-using-refused", "run-error-in-nested-macro-call-panics-into-host", "continue-after-or-in-for-without-condition",
+          "map-range-key-in-wrong-register", "context-not-restored-after-end-using", "one-loop-variable-for-all-iterations", "break-in-range-nested-in-for-or-switch", "continue-in-for-nested-in-range"}
 Sig(r, v) == LET c == Cause(r, v) IN
              [fam |-> "tmplsem", cause |-> c, fmt |-> r.fmt, kinds |-> IF c \in Named THEN <<>> ELSE SetToSeq(TmTreeKinds(r.tree))]
 
